@@ -59,6 +59,17 @@ func hostileIDs() []hostile {
 		{"sibling-sharing-root-name-prefix", "../rootx"},
 		{"sibling-sharing-root-name-prefix", "a/../../root-old/deep/k"},
 		{"sibling-sharing-root-name-prefix", "../../l3.bak/k"},
+		// ids that START like a valid client id (five or more characters of the accepted alphabet) and only then carry path
+		// components: a validation that looks at a prefix of the id, or stops at the first separator, lets these through.
+		// "alice_storage.old" is the history directory of the legitimate client (rotated twice in runConfineV1), so the
+		// first component exists and the operating system resolves the path.
+		{"valid-id-then-path", "alice_storage.old/../../escaped"},
+		{"valid-id-then-path", "alice_storage_sym.old/../../../esc2"},
+		{"valid-id-then-path", "validid/../../x5"},
+		{"valid-id-then-path", "client_one/.."},
+		{"valid-id-then-path", "client-two/../../../root.bak/k"},
+		{"valid-id-then-path", "abcde/"},
+		{"valid-id-then-path", "abcde\x00/../../z"},
 	}
 }
 
@@ -140,6 +151,38 @@ type ksOp struct {
 	f    func(ks ksrig.FullKeyStore, id []byte) error
 }
 
+// v1 entry points that validate the client id themselves (keystore.ValidateID) on the pinned tree: an escape through
+// one of them is not the recorded finding about the unvalidated ones (known_findings.d/c07.json) and gets its own signature class.
+type validatedEntryPoints interface {
+	GenerateConnectorKeys(id []byte) error
+	GenerateServerKeys(id []byte) error
+	GenerateTranslatorKeys(id []byte) error
+	GetPeerPublicKey(id []byte) (*keys.PublicKey, error)
+}
+
+var validatedOps = map[string]bool{"GenerateDataEncryptionKeys": true, "GenerateConnectorKeys": true, "GenerateServerKeys": true,
+	"GenerateTranslatorKeys": true, "GetPeerPublicKey": true}
+
+func validatedKeystoreOps() []ksOp {
+	call := func(f func(v validatedEntryPoints, id []byte) error) func(ks ksrig.FullKeyStore, id []byte) error {
+		return func(ks ksrig.FullKeyStore, id []byte) error {
+			v, ok := ks.(validatedEntryPoints)
+			if !ok {
+				return errNotOffered
+			}
+			return f(v, id)
+		}
+	}
+	return []ksOp{
+		{"GenerateConnectorKeys", call(func(v validatedEntryPoints, id []byte) error { return v.GenerateConnectorKeys(id) })},
+		{"GenerateServerKeys", call(func(v validatedEntryPoints, id []byte) error { return v.GenerateServerKeys(id) })},
+		{"GenerateTranslatorKeys", call(func(v validatedEntryPoints, id []byte) error { return v.GenerateTranslatorKeys(id) })},
+		{"GetPeerPublicKey", call(func(v validatedEntryPoints, id []byte) error { _, e := v.GetPeerPublicKey(id); return e })},
+	}
+}
+
+var errNotOffered = fmt.Errorf("entry point not offered by this keystore")
+
 func keystoreOps() []ksOp {
 	return []ksOp{
 		{"GenerateDataEncryptionKeys", func(ks ksrig.FullKeyStore, id []byte) error { return ks.GenerateDataEncryptionKeys(id) }},
@@ -169,6 +212,10 @@ func keystoreOps() []ksOp {
 
 func opClass(name string) string {
 	switch {
+	case validatedOps[name] && strings.HasPrefix(name, "Get"):
+		return "read-through-validating-entry-point"
+	case validatedOps[name]:
+		return "generate-through-validating-entry-point"
 	case strings.HasPrefix(name, "Generate") || strings.HasPrefix(name, "Save"):
 		return "generate"
 	case strings.HasPrefix(name, "Get"):
@@ -227,13 +274,19 @@ func runConfineV1(r *ev.Run) {
 	restoreOutside(sb.dir, sb.root, snapshot{}, decoys)
 	before := takeSnapshot(sb.dir, sb.root)
 	for _, h := range hostileIDs() {
-		for _, op := range keystoreOps() {
+		for _, op := range append(keystoreOps(), validatedKeystoreOps()...) {
 			mark := g.log.Len()
 			var err error
 			site, stack := guard(func() { err = op.f(ks, []byte(h.id)) })
 			calls := g.log.Since(mark)
+			if err == errNotOffered {
+				continue
+			}
 			r.Case()
 			r.Count("d_hostile_calls_checked_v1", 1)
+			if validatedOps[op.name] {
+				r.Count("d_hostile_calls_through_validating_entry_points_v1", 1)
+			}
 			r.Distinct(fmt.Sprintf("v1|d|%s|%s", op.name, h.class))
 			if err != nil {
 				r.Count("d_hostile_ids_rejected_v1", 1)
